@@ -59,3 +59,119 @@ Lemma sp_verify_v1_rejects_both :
   sp_verify_v1 term Node term_eqb Dflt [] (1, [Atom 0; Atom 5]) (1, [Atom 0]) = Some false /\
   sp_verify_v1 term Node term_eqb Dflt [] (1, []) (1, [Atom 0]) = Some false.
 Proof. vm_compute. split; reflexivity. Qed.
+
+(* ------------------------------------------------------------------------------------------ index functions *)
+From TF Require Import MmrBits.
+
+Lemma rll_leaf_spec n : 0 <= n -> n + 1 < 2 ^ 64 -> rll_leaf n = Some (tz (n + 1)).
+Proof.
+  intros Hn Hlt. unfold rll_leaf, two64.
+  change 18446744073709551616 with (2 ^ 64).
+  destruct (Z.ltb_spec (n + 1) (2 ^ 64)) as [_|]; [|lia].
+  replace n with ((n + 1) - 1) at 2 by lia.
+  rewrite land_wnot by lia. f_equal.
+  pose proof (tz_nonneg (n + 1)) as Ht.
+  unfold leading_zeros, bitlen.
+  pose proof (p2_pos (tz (n + 1)) Ht).
+  destruct (Z.eqb_spec (2 ^ tz (n + 1)) 0); [lia|].
+  rewrite Z.log2_pow2 by lia. lia.
+Qed.
+
+Lemma popcount_at_spec (k : nat) : forall n, 0 <= n < 2 ^ Z.of_nat k -> count_ones n = popcount_at k n.
+Proof.
+  induction k as [|k IH]; intros n Hn.
+  - change (2 ^ Z.of_nat 0) with 1 in Hn. assert (n = 0) by lia. subst. reflexivity.
+  - cbn [popcount_at]. rewrite p2_S in Hn.
+    destruct (Z.leb_spec (2 ^ Z.of_nat k) n).
+    + replace n with (2 ^ Z.of_nat k + (n - 2 ^ Z.of_nat k)) at 1 by lia.
+      rewrite co_pow2_add by lia. rewrite IH by lia. reflexivity.
+    + apply IH. lia.
+Qed.
+
+Lemma num_peaks_spec n : 0 <= n < 2 ^ 64 -> count_ones n = num_peaks n.
+Proof. intros. unfold num_peaks. apply (popcount_at_spec 64). exact H. Qed.
+
+Lemma popcount_at_nonneg (k : nat) : forall n, 0 <= popcount_at k n.
+Proof. induction k as [|k IH]; intros n; cbn [popcount_at]; [lia|]. destruct (_ <=? _); [specialize (IH (n - 2 ^ Z.of_nat k))|specialize (IH n)]; lia. Qed.
+
+Lemma locate_at_bounds (k : nat) : forall n i, 0 <= i < n -> n < 2 ^ Z.of_nat k ->
+  let '(pk, h, j) := locate_at k n i in
+  0 <= pk < popcount_at k n /\ 0 <= h < Z.of_nat k /\ 0 <= j < 2 ^ h.
+Proof.
+  induction k as [|k IH]; intros n i Hi Hn.
+  - change (2 ^ Z.of_nat 0) with 1 in Hn. lia.
+  - cbn [locate_at popcount_at]. rewrite p2_S in Hn. cbv zeta.
+    destruct (Z.leb_spec (2 ^ Z.of_nat k) n).
+    + destruct (Z.ltb_spec i (2 ^ Z.of_nat k)).
+      * pose proof (popcount_at_nonneg k (n - 2 ^ Z.of_nat k)). lia.
+      * specialize (IH (n - 2 ^ Z.of_nat k) (i - 2 ^ Z.of_nat k) ltac:(lia) ltac:(lia)).
+        destruct (locate_at k (n - 2 ^ Z.of_nat k) (i - 2 ^ Z.of_nat k)) as [[pk h] j]. lia.
+    + specialize (IH n i ltac:(lia) ltac:(lia)).
+      destruct (locate_at k n i) as [[pk h] j]. lia.
+Qed.
+
+Lemma li_mt_pk_top (k : nat) i n : 0 <= i < 2 ^ Z.of_nat k -> 2 ^ Z.of_nat k <= n < 2 * 2 ^ Z.of_nat k ->
+  li_mt_pk i n = Some (2 ^ Z.of_nat k + i, 0).
+Proof.
+  intros Hi Hn. unfold li_mt_pk.
+  destruct (Z.ltb_spec i n); [|lia].
+  set (r := n - 2 ^ Z.of_nat k). replace n with (2 ^ Z.of_nat k + r) by (unfold r; lia).
+  assert (Hr : 0 <= r < 2 ^ Z.of_nat k) by (unfold r; lia).
+  rewrite lxor_top_one by lia.
+  rewrite log2_pow2_add by (apply lxor_small; lia).
+  rewrite (Z.land_comm _ i). rewrite !land_mask by lia.
+  rewrite (Z.mod_small i) by lia.
+  replace ((2 ^ Z.of_nat k + r) mod 2 ^ Z.of_nat k) with r.
+  2:{ rewrite Z.add_comm. rewrite <- (Z.mul_1_l (2 ^ Z.of_nat k)) at 1. rewrite Z.mod_add by lia.
+      symmetry. apply Z.mod_small. lia. }
+  rewrite co_pow2_add by lia. f_equal. f_equal; lia.
+Qed.
+
+Lemma mod_pow2_add (k : nat) h x : 0 <= h <= Z.of_nat k -> (2 ^ Z.of_nat k + x) mod 2 ^ h = x mod 2 ^ h.
+Proof.
+  intros Hh. replace (2 ^ Z.of_nat k) with (2 ^ (Z.of_nat k - h) * 2 ^ h).
+  2:{ rewrite <- Z.pow_add_r by lia. f_equal. lia. }
+  rewrite Z.add_comm. apply Z.mod_add. pose proof (p2_pos h). lia.
+Qed.
+
+Lemma li_mt_pk_shift (k : nat) i n : 0 <= i < n -> n < 2 ^ Z.of_nat k ->
+  li_mt_pk (2 ^ Z.of_nat k + i) (2 ^ Z.of_nat k + n) =
+  match li_mt_pk i n with Some (mt, pk) => Some (mt, pk + 1) | None => None end.
+Proof.
+  intros Hi Hn. unfold li_mt_pk.
+  destruct (Z.ltb_spec (2 ^ Z.of_nat k + i) (2 ^ Z.of_nat k + n)); [|lia].
+  destruct (Z.ltb_spec i n); [|lia].
+  rewrite lxor_top_both by lia.
+  set (x := Z.lxor i n).
+  assert (Hx : 0 < x < 2 ^ Z.of_nat k).
+  { pose proof (lxor_small k i n ltac:(lia) ltac:(lia)). 
+    assert (x <> 0) by (unfold x; intros E; apply Z.lxor_eq in E; lia). unfold x in *. lia. }
+  assert (Hh : 0 <= Z.log2 x < Z.of_nat k).
+  { split; [apply Z.log2_nonneg|]. apply Z.log2_lt_pow2; lia. }
+  rewrite !(Z.land_comm (2 ^ Z.log2 x - 1)). rewrite !land_mask by lia.
+  rewrite !mod_pow2_add by lia.
+  rewrite co_pow2_add by lia. f_equal. f_equal. lia.
+Qed.
+
+Lemma li_mt_pk_locate (k : nat) : forall n i, 0 <= i < n -> n < 2 ^ Z.of_nat k ->
+  li_mt_pk i n = Some (let '(pk, h, j) := locate_at k n i in (2 ^ h + j, pk)).
+Proof.
+  induction k as [|k IH]; intros n i Hi Hn.
+  - change (2 ^ Z.of_nat 0) with 1 in Hn. lia.
+  - cbn [locate_at]. rewrite p2_S in Hn. cbv zeta.
+    destruct (Z.leb_spec (2 ^ Z.of_nat k) n).
+    + destruct (Z.ltb_spec i (2 ^ Z.of_nat k)).
+      * apply li_mt_pk_top; lia.
+      * replace i with (2 ^ Z.of_nat k + (i - 2 ^ Z.of_nat k)) at 1 by lia.
+        replace n with (2 ^ Z.of_nat k + (n - 2 ^ Z.of_nat k)) at 1 by lia.
+        rewrite li_mt_pk_shift by lia. rewrite IH by lia.
+        destruct (locate_at k (n - 2 ^ Z.of_nat k) (i - 2 ^ Z.of_nat k)) as [[pk h] j]. reflexivity.
+    + apply IH; lia.
+Qed.
+
+Lemma li_mt_pk_spec n i : 0 <= i < n -> n < 2 ^ 64 ->
+  li_mt_pk i n = Some (let '(pk, h, j) := locate n i in (2 ^ h + j, pk)).
+Proof. intros. unfold locate. apply (li_mt_pk_locate 64); assumption. Qed.
+
+Lemma li_mt_pk_none n i : n <= i -> li_mt_pk i n = None.
+Proof. intros. unfold li_mt_pk. destruct (Z.ltb_spec i n); [lia|reflexivity]. Qed.
